@@ -335,7 +335,7 @@ class Gen:
         # a tail call hands the callee's result convention to the caller's caller: same kind only
         # (known finding C06-tailcall-result-kind)
         same_kind = [c for c in callees if c[2] == returns]
-        tailcall = bool(same_kind) and r.random() < (0.2 if not self.chain else 0.45)
+        tailcall = bool(same_kind) and r.random() < (getattr(self, 'tailcall_p', None) or (0.2 if not self.chain else 0.45))
         if tailcall:
             self.funcs = []  # the tail call is the only call of this function (see known finding C06-tailcall-after-call)
         if callees and not tailcall and (self.chain or r.random() < (0.6 if not self.calls_focus else 0.9)):
